@@ -22,7 +22,7 @@ const (
 // present: does the minimal reproduction of the defect still fail on the tree under test? Probed once per process; the
 // generators avoid a trigger only while the defect is present AND listed as known, so a repaired tree is searched in full
 // and an unlisted defect is reported as a violation.
-var present struct{ S7, S8, S9 bool }
+var present struct{ S7, S8, S9, S10 bool }
 var probeOnce sync.Once
 
 func probeDefects() {
@@ -30,7 +30,9 @@ func probeDefects() {
 		present.S7 = reproS7() != ""
 		present.S8 = reproS8() != ""
 		present.S9 = reproS9() != ""
-		evid.R.Note("defect probes on this tree: S7 present=%v, S8 present=%v, S9 present=%v", present.S7, present.S8, present.S9)
+		present.S10 = staleHandleAfterRestore()
+		evid.R.Note("probes on this tree: S7 present=%v, S8 present=%v, S9 present=%v; handles derived before a RestoreSnapshot keep the discarded overlay (S10, domain restriction)=%v",
+			present.S7, present.S8, present.S9, present.S10)
 	})
 }
 
@@ -120,6 +122,24 @@ func reproS9() string {
 	return out
 }
 
+// staleHandleAfterRestore: is a restore through one handle invisible to a handle derived earlier (or to the root when
+// restoring through a child)? Not a finding of this check (see notes/C12.md): it only selects the snapshot domain.
+func staleHandleAfterRestore() bool {
+	d := mk("Pa", "1")
+	defer d.Close()
+	root := diffdb.New(d, []byte("P"))
+	child := root.WithPrefix([]byte{})
+	id := root.Snapshot()
+	child.Set([]byte("a"), []byte("NEW"))
+	_ = root.RestoreSnapshot(id)
+	v, _ := child.Get([]byte("a"))
+	id = child.Snapshot()
+	child.Set([]byte("a"), []byte("NEW2"))
+	_ = child.RestoreSnapshot(id)
+	w, _ := root.Get([]byte("a"))
+	return string(v) != "1" || string(w) != "1"
+}
+
 func regress(t *testing.T, sig string, repro func() string) {
 	detail := repro()
 	if detail == "" {
@@ -166,5 +186,9 @@ func TestObserve(t *testing.T) {
 	v1, _ = root.Get([]byte("a"))
 	v2, _ = child.Get([]byte("a"))
 	evid.R.Note("observed (not asserted, S10): child.Snapshot; child.Set(a,NEW); child.RestoreSnapshot -> child reads %q, root reads %q (engine callers snapshot/restore through the root only)", v2, v1)
+	// db.iterateRange never closes its pebble iterator (outside the statement; optional patch in fixes_proposed)
+	d2 := mk("a", "1")
+	d2.IterateRange([]byte("a"), []byte("b"), -1, false)
+	evid.R.Note("observed (not asserted): db.Close() after one IterateRange returns: %v", d2.Close())
 	evid.R.Case("observe", false, nil, "observe")
 }
